@@ -97,7 +97,7 @@ def run(tier, seed):
     chk = Check("C17", tier, seed, "other")
     ok, sites, failing = frame.rule_template()
     chk.add_rule("C17.S.template", ok, sites, failing)
-    n = 10 if tier == "quick" else 100
+    n = 10 if tier == "quick" else 400
     res = [x for r in harness.pmap(_work, [(seed, i) for i in range(n)]) for x in r]
     fails = [r for r in res if r[0] != "ok"]
     seen = set()
